@@ -49,9 +49,12 @@ UNSPEC = {
     'meson:define-token': '#mesondefine whose token is not a plain identifier',
     'meson:cmakedefine-not-at-line-start': 'a cmakedefine keyword in a meson-format template other than the pinned "#cmakedefine ..." line (pinned: error)',
     'meson:bool-in-@VAR@': '@VAR@ with a boolean value is deprecated, rendering undocumented',
-    'cmake:${-malformed': 'nested ${A${B}}, invalid characters inside ${...}, unterminated ${ or empty name',
+    'cmake:${-malformed': 'characters inside ${...} other than name characters, nested ${...} and @NAME@ references; a lone @; unterminated ${; empty ${}',
+    'cmake:composed-name-invalid': 'a name composed from inner references that comes out empty or with characters that are not name characters '
+                                   '(CMake looks any such name up; Meson rejects it with "invalid character")',
     'cmake:value-with-placeholder': 'values containing @ or $ in the cmake formats (the property restricts no-rescan to the meson format)',
-    'cmake:cmakedefine-form': '#cmakedefine other than "#cmakedefine VAR", "#cmakedefine01 VAR", "#cmakedefine VAR <one placeholder>" (indentation, "# cmakedefine", extra tokens)',
+    'cmake:cmakedefine-form': '#cmakedefine other than "#cmakedefine VAR", "#cmakedefine01 VAR", "#cmakedefine VAR <words separated by single blanks>" '
+                              '(indentation, "# cmakedefine", other white space, #cmakedefine01 with words, a define keyword among the words)',
     'cmake:mesondefine-not-at-line-start': 'a mesondefine keyword in a cmake-format template other than the pinned "#mesondefine ..." line (pinned: error)',
     'cmake:false-constant-string': 'strings that CMake treats as false constants (OFF, NO, FALSE, ...)',
     'define:empty-string-trailing-space': '"#define VAR " vs "#define VAR" for an empty string value: both accepted',
@@ -65,6 +68,7 @@ K_EOL_EOF = 'C14:define-line-eol:newline-added-at-eof'
 K_SWALLOW = 'C14:cmake:empty-value-swallows-next-placeholder'
 K_ARGMISS = 'C14:cmake:cmakedefine-arg-undefined-not-reported'
 K_HANG = 'C14:cmake:self-referential-value-never-terminates'
+K_BARE = 'C14:cmake:cmakedefine-word-that-is-a-key-replaced'
 HANG_S = 3                 # watchdog per real call (a call takes ~10 us)
 HANG_CLASS_LIVE = False    # decided by probes in the parent: skip the (unspecified) self-referential class if it hangs
 
@@ -160,6 +164,58 @@ def scan_meson(body):
     return tuple(segs), tags
 
 
+def parse_brace_ref(body, i, tags):
+    """body[i:i+2] == '${'.  -> (name, end) | None.  name is a str (literal name) or a tuple of parts ('l', text) /
+       ('v', name, source) when the name is itself built from references.  cmake-language(7), Variable References:
+       "Variable references can nest and are evaluated from the inside out, e.g. ${outer_${inner_variable}_variable}";
+       configure_file(): "substitutes variable values referenced as @VAR@ or ${VAR}" - both spellings are references, so
+       both may stand inside a name (CMake 3.25 resolves ${FLAGS_@ARCH@} to the value of FLAGS_<value of ARCH>).
+       Anything else inside the braces (other characters, a lone @, no closing brace, nothing at all) is malformed."""
+    n = len(body)
+    k = i + 2
+    parts, lit = [], []
+    while True:
+        if k >= n:
+            return None
+        c = body[k]
+        if c == '}':
+            break
+        if c in NAME:
+            lit.append(c)
+            k += 1
+        elif c == '$' and body[k + 1:k + 2] == '{':
+            r = parse_brace_ref(body, k, tags)
+            if r is None:
+                return None
+            if lit:
+                parts.append(('l', ''.join(lit)))
+                lit = []
+            parts.append(('v', r[0], body[k:r[1]]))
+            tags.add('nested-dollar-name')
+            k = r[1]
+        elif c == '@':
+            m = k + 1
+            while m < n and body[m] in NAME:
+                m += 1
+            if not (m > k + 1 and m < n and body[m] == '@'):
+                return None
+            if lit:
+                parts.append(('l', ''.join(lit)))
+                lit = []
+            parts.append(('v', body[k + 1:m], body[k:m + 1]))
+            tags.add('nested-at-name')
+            k = m + 1
+        else:
+            return None
+    if lit:
+        parts.append(('l', ''.join(lit)))
+    if not parts:
+        return None
+    if len(parts) == 1 and parts[0][0] == 'l':
+        return parts[0][1], k + 1
+    return tuple(parts), k + 1
+
+
 def scan_cmake(body, at_only):
     """configure_file.yaml: cmake -> ${variable}; cmake@ -> @variable@; config7/config10 pin that the cmake format
        replaces @var@ as well, that backslashes never escape, and that '@var1\\@' is left alone."""
@@ -181,18 +237,16 @@ def scan_cmake(body, at_only):
                 continue
             tags.add('at-text')
         elif c == '$' and not at_only and body[i + 1:i + 2] == '{':
-            k = i + 2
-            while k < n and body[k] in NAME:
-                k += 1
-            if k > i + 2 and k < n and body[k] == '}':
-                if lit:
-                    segs.append(('l', ''.join(lit)))
-                    lit = []
-                segs.append(('v', body[i + 2:k], body[i:k + 1]))
-                tags.add('dollar-var')
-                i = k + 1
-                continue
-            return None, {'unspec'}
+            r = parse_brace_ref(body, i, tags)
+            if r is None:
+                return None, {'unspec'}
+            if lit:
+                segs.append(('l', ''.join(lit)))
+                lit = []
+            segs.append(('v', r[0], body[i:r[1]]))
+            tags.add('dollar-var')
+            i = r[1]
+            continue
         elif c == '\\':
             tags.add('bs-text')
         lit.append(c)
@@ -203,12 +257,12 @@ def scan_cmake(body, at_only):
 
 
 _IDENT = re.compile(r'[A-Za-z0-9_]+\Z')
-_CMAKEDEF = re.compile(r'#cmakedefine(01)? ([A-Za-z0-9_]+)(?: (@[A-Za-z0-9_]+@|\$\{[A-Za-z0-9_]+\}))?\Z')
+_CMAKEDEF = re.compile(r'#cmakedefine(01)? ([A-Za-z0-9_]+)(?: (\S+(?: \S+)*))?\Z')
 _SPEC_CACHE = {}
 
 
 def analyse(line, fmt):
-    """-> ('plain', segs, eol, tags) | ('define', variant, name, arg, eol, tags) | ('error', tags) | ('unspec', reason)"""
+    """-> ('plain', segs, eol, tags) | ('define', variant, name, arg segs, eol, tags, arg text) | ('error', tags) | ('unspec', reason)"""
     key = (line, fmt)
     r = _SPEC_CACHE.get(key)
     if r is None:
@@ -233,7 +287,7 @@ def _analyse(line, fmt):
                 return ('error', frozenset({'error-mesondefine-tokens'}))     # pinned: '#mesondefine VAR xxx' raises
             if not _IDENT.match(toks[1]):
                 return ('unspec', 'meson:define-token')
-            return ('define', 'meson', toks[1], None, eol, frozenset({'define'} | _eoltags(eol)))
+            return ('define', 'meson', toks[1], None, eol, frozenset({'define'} | _eoltags(eol)), None)
         if 'cmakedefine' in body:
             if body.lstrip().startswith('#cmakedefine'):
                 return ('error', frozenset({'error-wrong-format'}))           # pinned: '#cmakedefine VAR' in meson raises
@@ -251,15 +305,20 @@ def _analyse(line, fmt):
         m = _CMAKEDEF.match(body)
         if not m or (m.group(1) and m.group(3)):
             return ('unspec', 'cmake:cmakedefine-form')
-        arg = None
-        if m.group(3):
-            src = m.group(3)
-            if src[0] == '$' and at_only:
-                arg = ('lit', None, src)       # @ONLY: "restrict variable replacement to references of the form @VAR@"
-            else:
-                arg = ('v', src[1:-1] if src[0] == '@' else src[2:-1], src)
+        arg, atags = None, set()
+        rest = m.group(3)
+        if rest:
+            if 'cmakedefine' in rest or 'mesondefine' in rest:
+                return ('unspec', 'cmake:cmakedefine-form')
+            # @ONLY: "restrict variable replacement to references of the form @VAR@"
+            arg, atags = scan_cmake(rest, at_only)
+            if arg is None:
+                return ('unspec', 'cmake:${-malformed')
+            atags = {'define-arg'} | {'define-arg-' + t for t in atags if t.startswith('nested')}
+            if len(arg) > 1 or arg[0][0] == 'l':
+                atags.add('define-arg-words')
         variant = 'cmake01' if m.group(1) else 'cmake'
-        return ('define', variant, m.group(2), arg, eol, frozenset({variant + '-define'} | ({'define-arg'} if arg else set()) | _eoltags(eol)))
+        return ('define', variant, m.group(2), arg, eol, frozenset({variant + '-define'} | atags | _eoltags(eol)), rest)
     if 'mesondefine' in body:
         if body.lstrip().startswith('#mesondefine'):
             return ('error', frozenset({'error-wrong-format'}))               # pinned: '#mesondefine VAR' in cmake raises
@@ -288,25 +347,63 @@ def render_value(v, fmt):
     return v, None
 
 
+NSTAT = {}          # per-process counters of the reference about composed names (flushed into the shard accumulator)
+
+
+def _nstat(k):
+    NSTAT[k] = NSTAT.get(k, 0) + 1
+
+
+def resolve_name(name, fmt, data, missing):
+    """A composed name is evaluated from the inside out: every inner reference is replaced by its (documented) rendering,
+       an undefined inner name by nothing (and is reported).  -> (name | None, unspec_reason)"""
+    if isinstance(name, str):
+        return name, None
+    out = []
+    for p in name:
+        if p[0] == 'l':
+            out.append(p[1])
+        else:
+            r, why = lookup(p[1], fmt, data, missing)
+            if r is None:
+                return None, why
+            out.append(r)
+    s = ''.join(out)
+    if not s or any(c not in NAME for c in s):
+        _nstat('composed_name_invalid')
+        return None, 'cmake:composed-name-invalid'
+    _nstat('composed_name_defined' if s in data else 'composed_name_undefined')
+    return s, None
+
+
+def lookup(name, fmt, data, missing):
+    """-> (rendering of the value the name denotes | None, unspec_reason); undefined: '' and the name is added to missing."""
+    n, why = resolve_name(name, fmt, data, missing)
+    if n is None:
+        return None, why
+    if n in data:
+        return render_value(data[n], fmt)
+    missing.add(n)
+    return '', None
+
+
 def render_plain(segs, fmt, data):
     """-> (text | None, missing, unspec_reason)"""
     out, missing = [], set()
     for s in segs:
         if s[0] == 'l':
             out.append(s[1])
-        elif s[1] in data:
-            r, why = render_value(data[s[1]], fmt)
-            if r is None:
-                return None, missing, why
-            out.append(r)
-        else:
-            missing.add(s[1])
+            continue
+        r, why = lookup(s[1], fmt, data, missing)
+        if r is None:
+            return None, missing, why
+        out.append(r)
     return ''.join(out), missing, None
 
 
 def render_define(spec, fmt, data):
     """-> (list of acceptable bodies | None, names expected in the missing set, unspec_reason)"""
-    _, variant, name, arg, eol, _ = spec
+    _, variant, name, arg, eol = spec[:5]
     if variant == 'meson':
         if name not in data:
             return ['/* #undef %s */' % name, '/* undef %s */' % name], set(), None
@@ -330,16 +427,37 @@ def render_define(spec, fmt, data):
         return ['/* #undef %s */' % name, '/* undef %s */' % name], set(), None
     if arg is None:
         return ['#define %s' % name], set(), None
-    if arg[0] == 'lit':
-        return ['#define %s %s' % (name, arg[2])], set(), None
-    if arg[1] not in data:
-        return ['#define %s' % name, '#define %s ' % name], {arg[1]}, None
-    r, why = render_value(data[arg[1]], fmt)
+    # configure_file(): 'The "..." content on the line after the variable name, if any, is processed as above'
+    r, miss, why = render_plain(arg, fmt, data)
     if r is None:
         return None, set(), why
     if r == '':
-        return ['#define %s' % name, '#define %s ' % name], set(), None
-    return ['#define %s %s' % (name, r)], set(), None
+        return ['#define %s' % name, '#define %s ' % name], miss, None
+    return ['#define %s %s' % (name, r)], miss, None
+
+
+def render_loose(segs, data):
+    """Classifier only: cmake rendering of every value whatever it looks like."""
+    out = []
+    for s in segs:
+        if s[0] == 'l':
+            out.append(s[1])
+        else:
+            n, _ = resolve_name(s[1], 'cmake', data, set()) if not isinstance(s[1], str) else (s[1], None)
+            v = data.get(n, '') if n is not None else ''
+            out.append(str(int(v)) if isinstance(v, bool) else str(v))
+    return ''.join(out)
+
+
+def bare_token_prediction(name, rest, at_only, data):
+    """Classifier only: what the define line looks like if the words of its value that are keys of the data are replaced by
+       str(value) before the placeholders are (None: no word is a key)."""
+    toks = rest.split(' ')
+    if not any(t in data for t in toks):
+        return None
+    line = ('#define %s %s' % (name, ' '.join(str(data[t]) if t in data else t for t in toks))).strip()
+    segs, _ = scan_cmake(line, at_only)
+    return None if segs is None else render_loose(segs, data)
 
 
 def rescan_prediction(body, data):
@@ -362,6 +480,14 @@ def cd_for(a, b):
     r = _CD_CACHE.get(k)
     if r is None:
         r = _CD_CACHE[k] = ConfigurationData({'A': a, 'B': b})
+    return r
+
+
+def cd_for_data(data):
+    k = tuple((n, type(v), v) for n, v in data.items())
+    r = _CD_CACHE.get(k)
+    if r is None:
+        r = _CD_CACHE[k] = ConfigurationData(dict(data))
     return r
 
 
@@ -430,7 +556,7 @@ def check_template(acc, text, frags, fmts, datasets, verbose=False):
         tags = set()
         for s in specs:
             if s[0] in ('plain', 'define'):
-                tags |= s[-1]
+                tags |= s[5] if s[0] == 'define' else s[3]
             elif s[0] == 'error':
                 tags |= s[1]
             else:
@@ -442,8 +568,15 @@ def check_template(acc, text, frags, fmts, datasets, verbose=False):
         if unspec_lines:
             acc.add('templates_with_unspecified_line')
         structs = {}
-        for (a, b) in datasets:
-            data = {'A': a, 'B': b}
+        for ds in datasets:
+            if isinstance(ds, dict):        # family "names": more keys than A and B
+                data, pair = ds, False
+                a, b = data.get('A'), data.get('B')
+                cd = cd_for_data(data)
+            else:
+                a, b = ds
+                data, pair = {'A': a, 'B': b}, True
+                cd = cd_for(a, b)
             rep = {'part': 'template', 'frags': frags, 'template': text, 'format': fmt, 'data': data}
             if HANG_CLASS_LIVE and self_referential(text, fmt, a, b):
                 acc.add('skipped_self_referential_cmake_value')
@@ -451,7 +584,7 @@ def check_template(acc, text, frags, fmts, datasets, verbose=False):
             if acc.hangs >= 2:
                 acc.add('not_run_after_hangs')
                 continue
-            r = run_real(lines, cd_for(a, b), fmt)
+            r = run_real(lines, cd, fmt)
             acc.add('evaluations')
             if verbose:
                 print('observed  :', r)
@@ -470,7 +603,7 @@ def check_template(acc, text, frags, fmts, datasets, verbose=False):
                     acc.violation('C14:%s:copy' % fmt, 'placeholder-free template %r not copied verbatim: %r' % (text, r[1:]),
                                   dict(rep, expected=text, observed=repr(r[1:])))
             # -- (1) marker differential, meson format only
-            if fmt == 'meson':
+            if fmt == 'meson' and pair:
                 ka, kb = kind(a), kind(b)
                 if ka in ('s', 'i') or kb in ('s', 'i'):
                     S = structs.get((ka, kb))
@@ -531,13 +664,27 @@ def swallow_prefix(segs, fmt, data):
         if s[0] == 'l':
             out.append(s[1])
             continue
-        val = render_value(data[s[1]], fmt)[0] if s[1] in data else ''
+        val = lookup(s[1], fmt, data, set())[0]
         if val is None:
             return None
         out.append(val)
         if val == '' and j + 1 < len(segs) and segs[j + 1][0] == 'v':
             src = segs[j + 1][2]       # the swallowed character is the opening one; a closing '@' may pair up again later
             return ''.join(out) + (src[:-1] if src[0] == '@' else src)
+    return None
+
+
+def data_dependent_unspec(specs, fmt, data):
+    """The reason, if the documented rendering of some line is unspecified for this data."""
+    for spec in specs:
+        if spec[0] == 'plain':
+            why = render_plain(spec[1], fmt, data)[2]
+        elif spec[0] == 'define':
+            why = render_define(spec, fmt, data)[2]
+        else:
+            why = None
+        if why:
+            return why
     return None
 
 
@@ -553,7 +700,12 @@ def oracle2(acc, lines, specs, unspec_lines, exp_err, r, fmt, data, rep, verbose
         elif fmt != 'meson' and any(isinstance(v, str) and ('@' in v or '$' in v) for v in data.values()):
             acc.skip('cmake:value-with-placeholder')
         else:
-            acc.violation('C14:%s:unexpected-error' % fmt, 'template %r raised %s' % (rep['template'], r[1]),
+            why = data_dependent_unspec(specs, fmt, data)
+            if why:
+                acc.skip(why)       # e.g. a composed name that is not a name: Meson rejects it, CMake looks it up
+                return
+            nest = sorted({t for s_ in specs if s_[0] in ('plain', 'define') for t in (s_[5] if s_[0] == 'define' else s_[3]) if 'nested' in t})
+            acc.violation('C14:%s:unexpected-error' % fmt + (':' + '+'.join(nest) if nest else ''), 'template %r raised %s' % (rep['template'], r[1]),
                           dict(rep, oracle='reference', expected='no error', observed=r[1]))
         return
     if exp_err:
@@ -615,6 +767,8 @@ def oracle2(acc, lines, specs, unspec_lines, exp_err, r, fmt, data, rep, verbose
             v = data.get(spec[2])
             if spec[1] == 'meson' and isinstance(v, str) and cand == rescan_prediction(bodies[0], data) + eol:
                 keys.append(K_RESCAN)
+            elif spec[1] == 'cmake' and spec[6] and cand == (bare_token_prediction(spec[2], spec[6], fmt == 'cmake@', data) or '') + eol:
+                keys.append(K_BARE)
             else:
                 keys = ['C14:%s:define-line:%s' % (fmt, '+'.join(sorted(spec[5])))]
         for key in keys:
@@ -661,9 +815,93 @@ def build_templates(maxlen):
 def shard(rng):
     lo, hi = rng
     acc = Acc()
+    NSTAT.clear()
     for text, tup in TEMPLATES[lo:hi]:
         check_template(acc, text, [FRAGS[i] for i in tup], FORMATS, DATASETS)
+    nstat_flush(acc)
     return acc.dump()
+
+
+# ---- family "names": cmake-format names that are computed, data sets in which the computed name exists / does not exist -------
+# The fragment alphabet holds ${...} references whose NAME is built from inner references in both spellings (and three deep),
+# inner references that are undefined, and a #cmakedefine whose value is a word that happens to be a key of the data; the data
+# sets bind, besides A and B, at most one further key out of the names those references can compose.
+NFRAGS = ['${A_@B@}', '${A_${B}}', '${${B}}', '${@B@}', '${A_@U@}', '${A_${U}}', '${${${B}}}',
+          '@A@', '${A}', '@B@', 'x', ' ', '\n', '\r\n', '}', '${', '@', '\\', '#cmakedefine A ', '#cmakedefine A B']
+N_NESTED = 7        # the first N_NESTED fragments are the composed-name references
+N_AV = ['v', '', 3]
+N_BV = ['v', 'A', '', 10, True, 'x y', '@A@']        # value of the inner reference: a name, a key of the data, nothing, not a name
+N_EXTRA_KEYS = ['A_v', 'A_A', 'A_', 'A_10', 'A_1', 'v', '10', '1']       # every name the fragments compose from A_/nothing + rendering of B (or of A)
+N_EXTRA_VALUES = ['r', '', 7, True]
+N_TEMPLATES = []
+N_DATASETS = []
+
+
+def build_names_family(maxlen):
+    seen, out, total = set(), [], 0
+    for n in range(1, maxlen + 1):
+        for tup in itertools.product(range(len(NFRAGS)), repeat=n):
+            total += 1
+            text = ''.join(NFRAGS[i] for i in tup)
+            if text in seen:
+                continue
+            seen.add(text)
+            out.append((text, tup))
+    extras = [{}] + [{k: v} for k in N_EXTRA_KEYS for v in N_EXTRA_VALUES]
+    data = [dict({'A': a, 'B': b}, **e) for e in extras for a in N_AV for b in N_BV]      # simplest (no further key) first
+    return out, total, data
+
+
+def nstat_flush(acc):
+    for k, v in NSTAT.items():
+        acc.add('ref_' + k, v)
+    NSTAT.clear()
+
+
+def names_shard(rng):
+    lo, hi = rng
+    acc = Acc()
+    NSTAT.clear()
+    for text, tup in N_TEMPLATES[lo:hi]:
+        check_template(acc, text, [NFRAGS[i] for i in tup], FORMATS, N_DATASETS)
+    nstat_flush(acc)
+    return acc.dump()
+
+
+def names_family(ck, maxlen):
+    global N_TEMPLATES, N_DATASETS
+    N_TEMPLATES, nseq, N_DATASETS = build_names_family(maxlen)
+    nt = len(N_TEMPLATES)
+    step = max(4, nt // 160)
+    ranges = [(lo, min(nt, lo + step)) for lo in range(0, nt, step)]
+    tot, unspec, vcount, classes, seen = {}, {}, {}, set(), set()
+    for res in pmap(names_shard, ranges):
+        for k, v in res['n'].items():
+            tot[k] = tot.get(k, 0) + v
+        for k, v in res['unspec'].items():
+            unspec[k] = unspec.get(k, 0) + v
+        for k, v in res['vcount'].items():
+            vcount[k] = vcount.get(k, 0) + v
+        classes.update(res['classes'])
+        for key, what, rep in res['viol']:
+            first = key not in seen
+            seen.add(key)
+            ck.violation(key, what, rep)
+            if first and any(k['key'] == key and k.get('status') == 'known' for k in ck.known):
+                ck.part('known_finding_witnesses', **{key: {'template': rep['template'], 'format': rep['format'], 'data': rep['data'],
+                                                            'expected': rep.get('expected'), 'observed': rep.get('observed')}})
+    ck.part('names_family', fragments=NFRAGS, fragment_sequences=nseq, distinct_texts=nt, max_fragments=maxlen, formats=FORMATS,
+            data_sets=len(N_DATASETS), values_of_A=[repr(v) for v in N_AV], values_of_B=[repr(v) for v in N_BV],
+            one_further_key_of=N_EXTRA_KEYS, bound_to=[repr(v) for v in N_EXTRA_VALUES], shards=len(ranges),
+            finding_class_case_counts=vcount, skipped_unspecified_by_reason=unspec, **tot)
+    ck.require(tot.get('ref_composed_name_defined', 0) > 1000 and tot.get('ref_composed_name_undefined', 0) > 1000,
+               'names family: the composed name was hardly ever defined / undefined')
+    ck.require(tot.get('ref_composed_name_invalid', 0) > 100, 'names family: no composed name that is not a name')
+    ck.require(any('nested-at-name' in c and c.startswith('cmake|') for c in classes) and any('nested-dollar-name' in c and c.startswith('cmake|') for c in classes)
+               and any('define-arg-nested' in c for c in classes) and any('define-arg-words' in c for c in classes),
+               'names family: composed names (both spellings, also in the value of a #cmakedefine) / words in a #cmakedefine value not exercised')
+    ck.require(tot.get('o2_lines_compared', 0) > 10000 and tot.get('o3_missing_nonempty', 0) > 1000, 'names family compared too little')
+    return tot, unspec, classes
 
 
 # ---- tier B: the same templates end-to-end through configure_file() of a real `meson setup` ------------------------------
@@ -1055,7 +1293,9 @@ def calibrate(ck):
               ('#cmakedefine VAR @VAR@', 'cmake@', {'VAR': 'value'}, '#define VAR value'), ('#cmakedefine VAR ${VAR}', 'cmake', {'VAR': 10}, '#define VAR 10'),
               ('#cmakedefine01 VAR', 'cmake', {'VAR': True}, '#define VAR 1'), ('#cmakedefine01 VAR', 'cmake', {'VAR': 0}, '#define VAR 0'),
               ('#cmakedefine01 VAR', 'cmake', {'VAR': False}, '#define VAR 0'), ('#cmakedefine01 VAR', 'cmake', {}, '#define VAR 0'),
-              ('#cmakedefine VAR', 'cmake', {'VAR': 5}, '#define VAR')]
+              ('#cmakedefine VAR', 'cmake', {'VAR': 5}, '#define VAR'),
+              ('#cmakedefine VAR xxx @VAR@ yyy @VAR@', 'cmake@', {'VAR': 'value'}, '#define VAR xxx value yyy value'),
+              ('#cmakedefine VAR xxx ${VAR} yyy ${VAR}', 'cmake', {'VAR': 'value'}, '#define VAR xxx value yyy value')]
     for line, fmt, data, want in pinned:
         spec = analyse(line + '\n', fmt)
         ck.require(spec[0] == 'define', 'reference does not see a define line in %r' % line)
@@ -1130,25 +1370,33 @@ def main():
     ck.require(any('esc-var' in c for c in classes) and any('esc-pairs' in c for c in classes) and any('crlf' in c for c in classes),
                'escape / CRLF classes not exercised')
     t_enum = time.time()
+    ntot, nunspec, nclasses = names_family(ck, ck.q(2, 3))
+    ck.cov['skipped_unspecified'] += sum(nunspec.values())
+    classes |= nclasses
+    t_names = time.time()
     nfile = file_slice(ck, 2, ck.seed)
     t_file = time.time()
     nhead, hclasses = header_part(ck)
     ntb = tier_b(ck) if ck.want('tierb') else 0
-    print('phases: probes+build %.1fs enumeration %.1fs file slice %.1fs header %.1fs' % (
-        t_build - ck.t0, t_enum - t_build, t_file - t_enum, time.time() - t_file), flush=True)
+    print('phases: probes+build %.1fs enumeration %.1fs names family %.1fs file slice %.1fs header %.1fs' % (
+        t_build - ck.t0, t_enum - t_build, t_names - t_enum, t_file - t_names, time.time() - t_file), flush=True)
     esc = next((t for t in TEMPLATES if '\\@A\\@' in t[0] and t[0].endswith('\r\n') and '@B@' in t[0]), TEMPLATES[0])
     ck.sample({'template': esc[0], 'fragments': [FRAGS[i] for i in esc[1]], 'format': 'meson', 'data': {'A': '@B@', 'B': 'x y'},
                'observed': ''.join(run_real(split_lines(esc[0]), cd_for('@B@', 'x y'), 'meson')[1])})
     ck.sample({'template': TEMPLATES[nt // 2][0], 'fragments': [FRAGS[i] for i in TEMPLATES[nt // 2][1]], 'formats': FORMATS})
     ck.sample({'template': TEMPLATES[nt - 7][0], 'fragments': [FRAGS[i] for i in TEMPLATES[nt - 7][1]], 'formats': FORMATS})
-    ck.finish(evaluations=tot.get('evaluations', 0) + nfile + nhead + ntb,
+    ck.sample({'template': '${A_@B@}x${${B}}\n', 'fragments': ['${A_@B@}', 'x', '${${B}}', '\n'], 'format': 'cmake', 'data': {'A': 'v', 'B': 'v', 'A_v': 7},
+               'observed': repr(run_real(['${A_@B@}x${${B}}\n'], cd_for_data({'A': 'v', 'B': 'v', 'A_v': 7}), 'cmake')[1:])})
+    ck.finish(evaluations=tot.get('evaluations', 0) + ntot.get('evaluations', 0) + nfile + nhead + ntb,
               distinct_nontrivial=len(classes) + hclasses,
               rule='every sequence of <= %d fragments from the 32-fragment alphabet (%d sequences, %d distinct texts) x 100 data sets '
-                   '(A,B in %r) x formats %s through the real do_conf_str (+ marker-structure runs for the meson format); do_conf_file on all '
+                   '(A,B in %r) x formats %s through the real do_conf_str (+ marker-structure runs for the meson format); names family: every sequence of '
+                   '<= %d fragments from a 20-fragment alphabet of references with computed names x %d data sets (A, B and at most one further key out of the '
+                   'names that can be composed) x formats; do_conf_file on all '
                    'texts <= 2 fragments; dump_conf_header on all ordered key tuples <= 2 x values x description and all permutations of '
                    '3..%d keys x {c,nasm,json} x macro guard; tier B: all texts <= 2 fragments x data x formats through configure_file() of a real meson setup. distinct_nontrivial = number of distinct (format, set of reference line '
                    'features: var/escape kinds/define kinds/error/CRLF/unspecified reason) classes among templates having at least one '
-                   'feature + distinct (header format, value-kind set) classes' % (maxlen, nseq, nt, VALUES, FORMATS, 6 if ck.thorough else 4),
+                   'feature + distinct (header format, value-kind set) classes' % (maxlen, nseq, nt, VALUES, FORMATS, ck.q(2, 3), len(N_DATASETS), 6 if ck.thorough else 4),
               exhaustive=tot.get('not_run_after_hangs', 0) == 0)
 
 
@@ -1183,10 +1431,10 @@ def replay(ck):
         if (exp[0] == 'ok') != isinstance(got, bytes) or (exp[0] == 'ok' and got != want):
             ck.violation(d['key'], d['what'], {k: v for k, v in d.items() if k not in ('property', 'key', 'what')})
     else:
-        text, fmt, a, b = d['template'], d['format'], d['data']['A'], d['data']['B']
+        text, fmt = d['template'], d['format']
         print('template  :', repr(text), 'format', fmt, 'data', d['data'])
         acc = Acc()
-        check_template(acc, text, d.get('frags', []), [fmt], [(a, b)], verbose=True)
+        check_template(acc, text, d.get('frags', []), [fmt], [(d['data']['A'], d['data']['B']) if set(d['data']) == {'A', 'B'} else d['data']], verbose=True)
         for key, what, rep in acc.viol:
             ck.violation(key, what, rep)
         if not acc.viol:
